@@ -74,6 +74,22 @@ def R(x: Any) -> Any:
     return x
 
 
+def pick(sym: Any, lo: int, hi: int) -> int:
+    """concrete value of a symbolic int known to lie in [lo, hi), found by comparisons (binary search) instead of
+    realize(): CrossHair counts realisations per argument and then 'prematurely realises' that argument to arbitrary
+    model values before the precondition is checked, wasting most iterations."""
+    if not tracing():
+        return int(sym)
+    a, b = lo, hi
+    while b - a > 1:
+        mid = (a + b) // 2
+        if sym < mid:
+            b = mid
+        else:
+            a = mid
+    return a
+
+
 def reached() -> None:
     global REACHED
     REACHED += 1
